@@ -119,6 +119,7 @@ type c19Obs struct {
 	FormatErrs  []string `json:"format_errors,omitempty"`
 	SinkBad     string   `json:"sink_bad,omitempty"`
 	IndexLines  int      `json:"index_lines,omitempty"`
+	Follow      bool     `json:"follow,omitempty"` // second transaction on the same WAF, no ctl fired in it
 }
 
 var c19Seq int
@@ -133,6 +134,9 @@ func c19RunTx(waf coraza.WAF, c *c19Case, txid, uri, clientIP string) (fired []i
 		tx.AddGetRequestArgument("h", string(c.ArgVal))
 		tx.AddRequestHeader("Host", "c19.example")
 		tx.AddRequestHeader("X-H", string(c.HdrVal))
+		if !c.Follow {
+			tx.AddRequestHeader("X-Ctl", "on")
+		}
 		tx.AddRequestHeader("Content-Type", "application/octet-stream")
 		if it := tx.ProcessRequestHeaders(); it != nil {
 			return
@@ -163,9 +167,11 @@ func c19RunTx(waf coraza.WAF, c *c19Case, txid, uri, clientIP string) (fired []i
 	return
 }
 
-func c19Exec(w *fw.W, c *c19Case) *c19Obs {
+// c19Exec builds the WAF of a case and runs its transaction; with follow, a second transaction that
+// triggers no ctl rule runs afterwards on the SAME WAF (observed separately: the sink is drained in between).
+func c19Exec(w *fw.W, c *c19Case, follow bool) (o, o2 *c19Obs) {
 	c19Seq++
-	o := &c19Obs{TxID: fmt.Sprintf("c19-%d-%d", w.Batch.Index, c19Seq), Callbacks: map[int]int{}}
+	o = &c19Obs{TxID: fmt.Sprintf("c19-%d-%d", w.Batch.Index, c19Seq), Callbacks: map[int]int{}}
 	base := filepath.Join(w.Scratch, fmt.Sprintf("t%d", c19Seq))
 	var text, key string
 	switch c.Sink {
@@ -179,47 +185,76 @@ func c19Exec(w *fw.W, c *c19Case) *c19Obs {
 		text = c.render("verifc19", key, "")
 	}
 	var cbMu sync.Mutex
+	cbs := map[string]map[int]int{}
 	cfg := coraza.NewWAFConfig().WithDirectives(text).WithErrorCallback(func(mr types.MatchedRule) {
 		cbMu.Lock()
-		if mr.TransactionID() == o.TxID {
-			o.Callbacks[mr.Rule().ID()]++
-		} else {
-			o.ForeignCB++
+		m := cbs[mr.TransactionID()]
+		if m == nil {
+			m = map[int]int{}
+			cbs[mr.TransactionID()] = m
 		}
+		m[mr.Rule().ID()]++
 		cbMu.Unlock()
 	})
 	waf, err := coraza.NewWAF(cfg)
 	if err != nil {
 		o.BuildErr = err.Error()
-		return o
+		return o, nil
 	}
 	defer sl.CloseWAF(waf)
-	o.Panic = fw.Guard(func() {
-		o.Fired, o.Interrupted, o.IntStatus = c19RunTx(waf, c, o.TxID, "/c19/"+o.TxID, "10.1.2.3")
-	})
-	switch c.Sink {
-	case "serial":
-		data, _ := os.ReadFile(base + ".log")
-		o.raw, o.SinkBad = c19SplitSerial(c.Format, data)
-		os.Remove(base + ".log")
-	case "concurrent":
-		o.raw, o.IndexLines, o.SinkBad = c19ReadConcurrent(base, o.TxID)
-		os.RemoveAll(base)
-	default:
-		for _, r := range c19TakePlugin(key) {
-			o.raw = append(o.raw, r.Bytes)
-			if r.Err != "" {
-				o.FormatErrs = append(o.FormatErrs, r.Err)
+	run := func(ob *c19Obs, cc *c19Case) {
+		ob.Panic = fw.Guard(func() {
+			ob.Fired, ob.Interrupted, ob.IntStatus = c19RunTx(waf, cc, ob.TxID, "/c19/"+ob.TxID, "10.1.2.3")
+		})
+		cbMu.Lock()
+		for id, m := range cbs {
+			if id == ob.TxID {
+				ob.Callbacks = m
+			} else {
+				ob.ForeignCB += len(m)
 			}
-			if r.TxID != o.TxID {
-				o.SinkBad = "writer called with the record of transaction " + r.TxID
+			delete(cbs, id)
+		}
+		cbMu.Unlock()
+		// drain the sink
+		switch c.Sink {
+		case "serial":
+			data, _ := os.ReadFile(base + ".log")
+			ob.raw, ob.SinkBad = c19SplitSerial(c.Format, data)
+			os.Truncate(base+".log", 0) // the writer appends (O_APPEND): the next record starts the file again
+		case "concurrent":
+			ob.raw, ob.IndexLines, ob.SinkBad = c19ReadConcurrent(base, ob.TxID)
+			os.RemoveAll(filepath.Join(base, "store"))
+			os.Truncate(filepath.Join(base, "index.log"), 0)
+		default:
+			for _, r := range c19TakePlugin(key) {
+				ob.raw = append(ob.raw, r.Bytes)
+				if r.Err != "" {
+					ob.FormatErrs = append(ob.FormatErrs, r.Err)
+				}
+				if r.TxID != ob.TxID {
+					ob.SinkBad = "writer called with the record of transaction " + r.TxID
+				}
 			}
 		}
+		for _, r := range ob.raw {
+			ob.Records = append(ob.Records, string(mustJSONBytes(c19Bytes(r))))
+		}
 	}
-	for _, r := range o.raw {
-		o.Records = append(o.Records, string(mustJSONBytes(c19Bytes(r))))
+	run(o, c)
+	if follow && o.Panic == nil {
+		c2 := *c
+		c2.Follow = true
+		o2 = &c19Obs{TxID: o.TxID + "f", Callbacks: map[int]int{}, Follow: true}
+		run(o2, &c2)
 	}
-	return o
+	switch c.Sink {
+	case "serial":
+		os.Remove(base + ".log")
+	case "concurrent":
+		os.RemoveAll(base)
+	}
+	return o, o2
 }
 
 func mustJSONBytes(v any) []byte { b, _ := json.Marshal(v); return b }
@@ -285,17 +320,26 @@ func c19Judge(w *fw.W, c *c19Case, o *c19Obs) bool {
 		w.Cover("build_error_samples", o.BuildErr)
 		return false
 	}
-	exp := c.expect()
-	expJ := map[string]any{"decision": exp}
-	if o.Panic != nil {
-		w.Violation("panic:"+fl+":"+o.Panic.Frame, "recover", c, expJ, o, o.Panic.Value+"\n"+o.Panic.Stack)
-		return true
+	prefix := ""
+	if o.Follow {
+		// the follow-up transaction fired no ctl: what goes wrong here was left behind by the first transaction on the WAF
+		prefix = "followup:"
+		w.Count("followup_transactions", 1)
 	}
-	// harness cross-checks: is the execution the one the model assumed? (rule firing and interruptions are C01/C02 matters)
+	viol := func(class, monitor string, cs, e, ob any, detail string) {
+		w.Violation(prefix+class, monitor, cs, e, ob, detail)
+	}
 	fired := map[int]int{}
 	for _, id := range o.Fired {
 		fired[id]++
 	}
+	exp := c.expect(fired)
+	expJ := map[string]any{"decision": exp}
+	if o.Panic != nil {
+		viol("panic:"+fl+":"+o.Panic.Frame, "recover", c, expJ, o, o.Panic.Value+"\n"+o.Panic.Stack)
+		return true
+	}
+	// harness cross-checks: is the execution the one the model assumed? (rule firing and interruptions are C01/C02 matters)
 	for i := range c.Rules {
 		r := &c.Rules[i]
 		if r.Phase == 5 && c.RuleEngine == "On" && c.denyRule() != nil {
@@ -323,6 +367,15 @@ func c19Judge(w *fw.W, c *c19Case, o *c19Obs) bool {
 	w.Count("formats:"+c.Format, 1)
 	w.Cover("formats", c.Format)
 	w.Cover("sinks", c.Sink)
+	for i := range c.Rules {
+		for _, ctl := range c.Rules[i].Ctl {
+			k, _, _ := strings.Cut(ctl, "=")
+			w.Cover("ctl_phases", fmt.Sprintf("%s@phase%d", k, c.Rules[i].Phase))
+			if c.Rules[i].Phase == 5 && fired[c.Rules[i].ID] > 0 {
+				w.Count("ctl_fired_in_phase5", 1)
+			}
+		}
+	}
 	w.Cover("engine_cells", exp.EffEngine+"/"+exp.StatusSource+fmt.Sprintf("/ctl=%v/relevant=%v", exp.EngineByCtl, exp.Relevant))
 	bad := false
 	if exp.Ambiguous != "" {
@@ -330,15 +383,15 @@ func c19Judge(w *fw.W, c *c19Case, o *c19Obs) bool {
 		w.Cover("ambiguous_reasons", exp.Ambiguous)
 	} else if len(o.raw) != exp.Records {
 		det := fmt.Sprintf("%d record(s) through sink %s, expected %d (effective engine %s, status %d from %s, relevant=%v)", len(o.raw), c.Sink, exp.Records, exp.EffEngine, exp.Status, exp.StatusSource, exp.Relevant)
-		w.Violation(exp.countClass(), "decision-table", c, expJ, o, det)
+		viol(exp.countClass(), "decision-table", c, expJ, o, det)
 		bad = true
 	}
 	if o.SinkBad != "" {
-		w.Violation("malformed:"+c.Sink+"-container:"+fl, "file-parser", c, expJ, o, o.SinkBad)
+		viol("malformed:"+c.Sink+"-container:"+fl, "file-parser", c, expJ, o, o.SinkBad)
 		bad = true
 	}
 	for _, e := range o.FormatErrs {
-		w.Violation("format-error:"+fl, "plugin-writer", c, expJ, o, e)
+		viol("format-error:"+fl, "plugin-writer", c, expJ, o, e)
 		bad = true
 	}
 
@@ -377,13 +430,13 @@ func c19Judge(w *fw.W, c *c19Case, o *c19Obs) bool {
 	for _, raw := range o.raw {
 		p, malformed := c19ParseRecord(c.Format, raw)
 		if malformed != "" {
-			w.Violation("malformed:"+fl+suffix, "record-parser", c, expJ, o, malformed)
+			viol("malformed:"+fl+suffix, "record-parser", c, expJ, o, malformed)
 			bad = true
 			continue
 		}
 		w.Count("records_parsed", 1)
 		if p.TxID != o.TxID {
-			w.Violation("txid:"+fl+suffix, "record-parser", c, expJ, o, fmt.Sprintf("record carries transaction id %q, transaction is %q", p.TxID, o.TxID))
+			viol("txid:"+fl+suffix, "record-parser", c, expJ, o, fmt.Sprintf("record carries transaction id %q, transaction is %q", p.TxID, o.TxID))
 			bad = true
 		}
 		if c.Format == "Native" {
@@ -395,7 +448,7 @@ func c19Judge(w *fw.W, c *c19Case, o *c19Obs) bool {
 				} else if c.Parts == "" {
 					kind = "default"
 				}
-				w.Violation("parts:native-"+kind, "record-parser", c, expJ, o, fmt.Sprintf("sections %q, expected parts %q", p.Sections, exp.Parts))
+				viol("parts:native-"+kind, "record-parser", c, expJ, o, fmt.Sprintf("sections %q, expected parts %q", p.Sections, exp.Parts))
 				bad = true
 			}
 		}
@@ -417,7 +470,7 @@ func c19Judge(w *fw.W, c *c19Case, o *c19Obs) bool {
 					}
 				}
 			}
-			w.Violation("rules:"+kind+"-listed"+suffix, "record-parser", c, expJ, map[string]any{"parsed": p, "obs": o}, fmt.Sprintf("rule %d listed in the %s record; expected listing %v", id, c.Format, c19Keys(wantListed)))
+			viol("rules:"+kind+"-listed"+suffix, "record-parser", c, expJ, map[string]any{"parsed": p, "obs": o}, fmt.Sprintf("rule %d listed in the %s record; expected listing %v", id, c.Format, c19Keys(wantListed)))
 			bad = true
 		}
 		missing := 0
@@ -430,13 +483,13 @@ func c19Judge(w *fw.W, c *c19Case, o *c19Obs) bool {
 			for id := range wantListed {
 				if !listed[id] {
 					lg, au, _ := c.flagsOf(c.rule(id))
-					w.Violation("rules:"+c19FlagKind(lg, au)+"-missing"+suffix, "record-parser", c, expJ, map[string]any{"parsed": p, "obs": o}, fmt.Sprintf("fired audit-enabled rule %d not listed in the %s record (listed %v, %d anonymous message(s), parts %s)", id, c.Format, p.Listed, p.Anon, exp.Parts))
+					viol("rules:"+c19FlagKind(lg, au)+"-missing"+suffix, "record-parser", c, expJ, map[string]any{"parsed": p, "obs": o}, fmt.Sprintf("fired audit-enabled rule %d not listed in the %s record (listed %v, %d anonymous message(s), parts %s)", id, c.Format, p.Listed, p.Anon, exp.Parts))
 					bad = true
 					break
 				}
 			}
 		} else if p.Anon > missing && len(undecided) == 0 {
-			w.Violation("rules:anonymous-extra"+suffix, "record-parser", c, expJ, map[string]any{"parsed": p, "obs": o}, fmt.Sprintf("%d message(s) without identifiable rule beyond the %d expected ones", p.Anon-missing, missing))
+			viol("rules:anonymous-extra"+suffix, "record-parser", c, expJ, map[string]any{"parsed": p, "obs": o}, fmt.Sprintf("%d message(s) without identifiable rule beyond the %d expected ones", p.Anon-missing, missing))
 			bad = true
 		}
 		if len(wantListed) > 0 {
@@ -446,7 +499,7 @@ func c19Judge(w *fw.W, c *c19Case, o *c19Obs) bool {
 
 	// 3. error callback: exactly once per fired rule with logging enabled
 	if o.ForeignCB > 0 {
-		w.Violation("callback:foreign-transaction", "error-callback", c, expJ, o, "callback invoked with another transaction id")
+		viol("callback:foreign-transaction", "error-callback", c, expJ, o, "callback invoked with another transaction id")
 		bad = true
 	}
 	ids := map[int]bool{}
@@ -480,7 +533,7 @@ func c19Judge(w *fw.W, c *c19Case, o *c19Obs) bool {
 		case got > want:
 			cls = "callback:twice"
 		}
-		w.Violation(cls, "error-callback", c, expJ, o, fmt.Sprintf("rule %d: %d callback(s), expected %d", id, got, want))
+		viol(cls, "error-callback", c, expJ, o, fmt.Sprintf("rule %d: %d callback(s), expected %d", id, got, want))
 		bad = true
 	}
 	if !bad && len(o.Fired) > 0 {
@@ -567,13 +620,28 @@ func c19Rot(n int, cell, rep int, seed int64, salt int) int {
 
 func c19DecisionCell(cell, rep int, seed int64) *c19Case {
 	ix := c19Decode(cell, c19DecisionDims())
-	c := &c19Case{Table: "decision", Cell: cell}
-	c.RuleEngine = []string{"On", "DetectionOnly"}[ix[0]]
-	c.AuditEngine = []string{"On", "Off", "RelevantOnly"}[ix[1]]
-	ctl := c19Ctls()[ix[2]]
-	st := c19StatusSources()[ix[3]]
-	flags := c19FlagCombos[ix[4]]
-	c.Format = c19Formats[ix[5]]
+	return c19DecisionCase("decision", cell, rep, seed, ix[0], ix[1], c19Ctls()[ix[2]], c19StatusSources()[ix[3]], c19FlagCombos[ix[4]], c19Formats[ix[5]])
+}
+
+// late table: the ctl:auditEngine switch made by a rule of the logging phase itself (phase 5), which is
+// evaluated before the audit decision is taken: rule engine x SecAuditEngine x ctl value x status source x format
+// (the log flags of the deciding rule rotate).
+func c19LateDims() []int {
+	return []int{2, 3, 3, len(c19StatusSources()), len(c19Formats)}
+}
+
+func c19LateCell(cell, rep int, seed int64) *c19Case {
+	ix := c19Decode(cell, c19LateDims())
+	ctl := c19Ctl{Engine: []string{"On", "Off", "RelevantOnly"}[ix[2]], Phase: 5}
+	flags := c19FlagCombos[c19Rot(len(c19FlagCombos), cell, rep, seed, 11)]
+	return c19DecisionCase("late", cell, rep, seed, ix[0], ix[1], ctl, c19StatusSources()[ix[3]], flags, c19Formats[ix[4]])
+}
+
+func c19DecisionCase(table string, cell, rep int, seed int64, re, ae int, ctl c19Ctl, st c19Status, flags, format string) *c19Case {
+	c := &c19Case{Table: table, Cell: cell}
+	c.RuleEngine = []string{"On", "DetectionOnly"}[re]
+	c.AuditEngine = []string{"On", "Off", "RelevantOnly"}[ae]
+	c.Format = format
 	c.Relevant = c19Patterns[0]
 	if c19Rot(4, cell, rep, seed, 1) == 0 {
 		c.Relevant = c19Patterns[1]
@@ -645,7 +713,7 @@ func c19ContentCase(table string, cell, rep int, seed int64, f1, f2 string, def 
 		ph1, ph2 = 1+c19Rot(4, cell, rep, seed, 2), 1+c19Rot(5, cell, rep, seed, 3)
 	}
 	if cp != "" {
-		c.Rules = append(c.Rules, c19Rule{ID: 2, Phase: 1 + c19Rot(4, cell, rep, seed, 4), Flags: "nolog", Ctl: []string{"auditLogParts=" + cp}, NoMsg: true})
+		c.Rules = append(c.Rules, c19Rule{ID: 2, Phase: 1 + c19Rot(5, cell, rep, seed, 4), Flags: "nolog", Ctl: []string{"auditLogParts=" + cp}, NoMsg: true})
 	}
 	r1 := c19Rule{ID: 11, Phase: ph1, Flags: f1}
 	r2 := c19Rule{ID: 12, Phase: ph2, Flags: f2}
@@ -705,6 +773,7 @@ func c19Plan(tier fw.Tier, seed int64) []fw.Batch {
 	split("decision", c19Product(c19DecisionDims()), shards)
 	split("content", c19Product(c19ContentDims()), shards/2)
 	split("parts", c19Product(c19PartsDims()), 2)
+	split("late", c19Product(c19LateDims()), 2)
 	return bs
 }
 
@@ -727,14 +796,21 @@ func c19Run(w *fw.W, b fw.Batch) {
 				c = c19DecisionCell(cell, rep, w.Seed)
 			case "content":
 				c = c19ContentCell(cell, rep, w.Seed)
+			case "late":
+				c = c19LateCell(cell, rep, w.Seed)
 			default:
 				c = c19PartsCell(cell, rep, w.Seed)
 			}
 			c.fillBytes(w)
 			w.Trace(c)
-			o := c19Exec(w, c)
+			o, o2 := c19Exec(w, c, c19WantFollow(c, cell, rep, w.Seed))
 			if c19Judge(w, c, o) && w.WantSample() && len(o.raw) > 0 && len(o.Fired) > 1 {
 				w.Sample(map[string]any{"case": c, "config": c.render("<writer>", "<target>", ""), "observed": o})
+			}
+			if o2 != nil {
+				c2 := *c
+				c2.Follow = true
+				c19Judge(w, &c2, o2)
 			}
 			n++
 			if n%512 == 0 {
@@ -744,6 +820,21 @@ func c19Run(w *fw.W, b fw.Batch) {
 		w.Count("table_cells", 1)
 		w.Count("table_cells_"+p.Part, 1)
 	}
+}
+
+// c19WantFollow: a follow-up transaction (no ctl fired) on the same WAF is run for every cell of the parts and
+// late tables, and for a rotating quarter of the decision / content cells in which a ctl rule exists.
+func c19WantFollow(c *c19Case, cell, rep int, seed int64) bool {
+	switch c.Table {
+	case "parts", "late":
+		return true
+	}
+	for i := range c.Rules {
+		if len(c.Rules[i].Ctl) > 0 {
+			return c19Rot(4, cell, rep, seed, 20) == 0
+		}
+	}
+	return false
 }
 
 func c19Replay(w *fw.W, raw json.RawMessage) {
@@ -759,9 +850,15 @@ func c19Replay(w *fw.W, raw json.RawMessage) {
 	if json.Unmarshal(raw, &c) != nil {
 		return
 	}
+	c.Follow = false
 	for i := 0; i < 3; i++ {
-		o := c19Exec(w, &c)
+		o, o2 := c19Exec(w, &c, true)
 		c19Judge(w, &c, o)
+		if o2 != nil {
+			c2 := c
+			c2.Follow = true
+			c19Judge(w, &c2, o2)
+		}
 	}
 }
 
@@ -769,7 +866,7 @@ func init() {
 	plugins.RegisterAuditLogWriter("verifc19", func() plugintypes.AuditLogWriter { return &c19PlugWriter{} })
 	fw.Register(&fw.Prop{
 		ID: "C19", Level: "exploration",
-		Rule: "three tables enumerated completely (exhaustive=true refers to them): DECISION = rule engine {On,DetectionOnly} x SecAuditEngine {On,Off,RelevantOnly} x ctl:auditEngine {none, On/Off/RelevantOnly in a rule of phase 1..4} x status source {response 200/404/403/503; deny with status 403/404 in phase 1..4 (real interruption under On, would-be under DetectionOnly) with response 200/503} x log flags of the deciding rule (9 lists of log/nolog/auditlog/noauditlog incl. none) x format {JSON,JsonLegacy,Native,OCSF}; CONTENT (engine On) = flags of two fired rules (9x9) x SecDefaultAction log flags (none + 4) x SecAuditLogParts (14 incl. none) x format (4); PARTS (engine On) = SecAuditLogParts (14) x ctl:auditLogParts (11 incl. none, +X, -X, absolute) x format (4) x 3 flag lists. Covering (not product) dimensions rotate with cell index, repetition and seed: relevant-status pattern, sink (plugin writer / serial file / concurrent directory+index, the files parsed), extra rules, hostile header/argument/body/message bytes. Every execution is a connector-style transaction finished by one ProcessLogging; the number of records, well-formedness, transaction id, listed rule ids and error-callback invocations are compared with a decision function written from the statement. Concurrent part (race build, sampled): G goroutines finishing transactions through ONE serial writer or ONE concurrent writer; files parsed afterwards, record ids compared with finished ids as multisets, index entries checked for interleaving. A case is non-trivial when at least one rule fired and every judgement was made without violation; distinct by hash of the whole case (configuration, rules, bytes, sink).",
+		Rule: "five tables enumerated completely (exhaustive=true refers to them): DECISION = rule engine {On,DetectionOnly} x SecAuditEngine {On,Off,RelevantOnly} x ctl:auditEngine {none, On/Off/RelevantOnly in a rule of phase 1..4} x status source {response 200/404/403/503; deny with status 403/404 in phase 1..4 (real interruption under On, would-be under DetectionOnly) with response 200/503} x log flags of the deciding rule (9 lists of log/nolog/auditlog/noauditlog incl. none) x format {JSON,JsonLegacy,Native,OCSF}; CONTENT (engine On) = flags of two fired rules (9x9) x SecDefaultAction log flags (none + 4) x SecAuditLogParts (14 incl. none) x format (4); PARTS (engine On) = SecAuditLogParts (14) x ctl:auditLogParts (11 incl. none, +X, -X, absolute) x format (4) x 3 flag lists, the phase (1..5) of the ctl rule rotating; LATE = ctl:auditEngine {On,Off,RelevantOnly} executed by a rule of the logging phase (phase 5, evaluated before the audit decision) x rule engine (2) x SecAuditEngine (3) x status source (20) x format (4), the flags of the deciding rule rotating. Every ctl rule tests a request header, and for every cell of PARTS and LATE and a rotating quarter of the DECISION/CONTENT cells with a ctl rule a second transaction WITHOUT that header follows on the SAME WAF; its record, callbacks and parts are judged by the same decision function for the configured (not ctl-modified) engine and parts (violation classes prefixed followup:). Covering (not product) dimensions rotate with cell index, repetition and seed: relevant-status pattern, sink (plugin writer / serial file / concurrent directory+index, the files parsed), extra rules, hostile header/argument/body/message bytes. Every execution is a connector-style transaction finished by one ProcessLogging; the number of records, well-formedness, transaction id, listed rule ids and error-callback invocations are compared with a decision function written from the statement. Concurrent part (race build, sampled): G goroutines finishing transactions through ONE serial writer or ONE concurrent writer; files parsed afterwards, record ids compared with finished ids as multisets, index entries checked for interleaving. A case is non-trivial when at least one rule fired and every judgement was made without violation; distinct by hash of the whole case (configuration, rules, bytes, sink).",
 		Assumptions: []string{
 			"fired rules are taken from Transaction.MatchedRules(); which rules fire is C01/C02/C08 territory. A cross-check against the generator's own expectation skips (and counts) executions that differ",
 			"log flags are judged from the generated flag lists (log: both, nolog: neither, auditlog/noauditlog: audit bit only, applied left to right after the SecDefaultAction list of the phase), never from MatchedRule.Audit()/Log()",
@@ -777,7 +874,7 @@ func init() {
 			"field names are used only to locate the transaction id and rule ids (JSON: transaction.id, messages[].data.id / error_message; JsonLegacy: transaction.transaction_id, audit_data.messages[] text prefix; OCSF: http_request.uid, enrichments[].data; Native: section A line, K raw rules, H [id \"N\"]); timestamps, ordering and other fields are not judged",
 			"a clean race-detector run covers only the schedules that occurred",
 		},
-		Required:   []string{"table_cells", "records_expected", "records_seen", "records_parsed", "callbacks", "records_with_rules_judged", "concurrent_records", "concurrent_files_parsed", "formats"},
+		Required:   []string{"ctl_fired_in_phase5", "followup_transactions", "table_cells", "records_expected", "records_seen", "records_parsed", "callbacks", "records_with_rules_judged", "concurrent_records", "concurrent_files_parsed", "formats"},
 		Exhaustive: true,
 		Plan:       c19Plan,
 		Run:        c19Run,
